@@ -133,6 +133,8 @@ def gen_history(rng, case):
     if removed:
         runs_of = rng.choice(removed)
         pool = pool + [runs_of] * 2
+    if removed and rng.random() < 0.3:
+        pool = pool[:1] + [runs_of] * 3          # a small past, mostly removed tokens (few rows, among them the all-mask one)
     h = {"docs": gen_docs_like(rng, case["kind"], pool, rng.choice([1, 2, 3]), rng.choice([1, 16, 1024]), runs_of),
          "how": rng.choice(["fit", "fit_transform"])}
     if case["kind"] == "timed":
@@ -248,7 +250,11 @@ def plan_of(case):
     excl = set(kw.get("excluded_tokens") or [])
     mask_string = kw.get("mask_string")
     flat = [t for d in tokens_of(case) for t in d]
-    kept = sorted(set(t for t in flat if t not in excl))
+    mn, mx = kw.get("min_occurrences"), kw.get("max_occurrences")      # (used by C14's family stream, not for n-grams)
+    cnt = {}
+    for t in flat:
+        cnt[t] = cnt.get(t, 0) + 1
+    kept = sorted(t for t in cnt if t not in excl and (mn is None or cnt[t] >= mn) and (mx is None or cnt[t] <= mx))
     vocab = {t: i for i, t in enumerate(kept)}
     if not flat or not kept and (mask_string is None or listify(kw.get("window_functions", "fixed"), 1)[0] == "variable"):
         return {"error": "ValueError"}      # nothing to count (variable radii of an empty frequency table: undefined)
@@ -262,7 +268,7 @@ def plan_of(case):
         out = []
         for it in seq:
             t = get(it)
-            if t in vocab and t not in excl:
+            if t in vocab and t not in excl and t != mask_string:
                 out.append(put(it, vocab[t]))
             elif mask_id is not None:
                 out.append(put(it, mask_id))
@@ -507,7 +513,8 @@ def occurrences(p, radii):
                                 continue
                             k = abs(q - m)
                             for s2, t in enumerate(doc[q]):
-                                if k < b["off"] or (b["mask"] is not None and t == b["mask"]) or (q == m and s2 == s):
+                                # (a target that is the nullified mask has no contexts: its row is zero -- D31)
+                                if k < b["off"] or (b["mask"] is not None and (t == b["mask"] or tgt == b["mask"])) or (q == m and s2 == s):
                                     v = F(0)
                                 else:
                                     v = F(1) if b["kind"] == "flat" else b["power"] ** k
